@@ -15,7 +15,9 @@ class C19(BaseCheck):
           'path with its children and later re-creation with the same or different child names, members '
           'vanishing between listing and reading (and coming back under the same name), blips (the path and its '
           'children deleted and back, wholly or partly under the same names, within a read round trip, so an old '
-          'children watch survives while the data watch sees the path missing), consumer callbacks raising on a '
+          'children watch survives while the data watch sees the path missing), member restarts (node deleted, '
+          'new node with a fresh name and the same endpoint data, in one listing or two; judged through a second '
+          'consumer keyed by endpoint, as the load balancers are), consumer callbacks raising on a '
           'seeded schedule, concurrent '
           'get_members() iterations. At every quiescent point (no watch event pending, no read in flight, '
           'notification queue empty) the consumer\'s set - joins and leaves applied in delivery order - must '
@@ -30,7 +32,7 @@ class C19(BaseCheck):
   REQUIRED_ANCHORS = ANCHORS
   REQUIRED_CLASSES = ('parent-deleted', 'parent-recreated-same-names', 'parent-recreated-different-names',
                       'callback-raised', 'burst', 'non-member-child', 'path-created-later', 'vanished-before-read', 'fast-recreate',
-                      'same-name-recreated', 'blip')
+                      'same-name-recreated', 'blip', 'restart-same-endpoint')
   ASSUMPTIONS = ('member znodes get fresh sequential names within one incarnation of the watched path (as '
                  'ZooKeeper sequential nodes do); a name is used again only after the path itself was re-created, '
                  'or for a node that was deleted before the client could read it and is registered again with the '
@@ -76,6 +78,7 @@ class C19(BaseCheck):
     else:
       classes.add('path-created-later')
     consumer = {}
+    by_endpoint = {}
     artificial = set()
     log = []
     raise_p = rng.choice([0.0, 0.0, 0.1, 0.3])
@@ -96,6 +99,8 @@ class C19(BaseCheck):
       elif m.name in consumer:
         viol('alternation:double-join', 'member %s reported as joining twice without a leave in between' % m.name)
       consumer[m.name] = (m.service_endpoint.host, m.service_endpoint.port)
+      # a second consumer that, like the load balancers, knows members by their endpoint
+      by_endpoint.setdefault(consumer[m.name], m.name)
       if rng.random() < raise_p:
         stats['callback_errors'] += 1
         classes.add('callback-raised')
@@ -108,6 +113,7 @@ class C19(BaseCheck):
       if m.name not in consumer:
         viol('alternation:double-leave', 'member %s reported as leaving while the consumer does not hold it' % m.name)
       consumer.pop(m.name, None)
+      by_endpoint.pop((m.service_endpoint.host, m.service_endpoint.port), None)
       if rng.random() < raise_p:
         stats['callback_errors'] += 1
         classes.add('callback-raised')
@@ -161,6 +167,17 @@ class C19(BaseCheck):
         artificial.update(missing)
         consumer.clear()
         consumer.update(t)
+        by_endpoint.clear()
+        by_endpoint.update({v: k_ for k_, v in t.items()})
+      elif set(by_endpoint) != set(t.values()):
+        # the same notifications applied by a consumer that keys members by endpoint (a member that
+        # restarts keeps its endpoint and gets a new node name; the histories here always delete the
+        # old node before they create the new one)
+        viol('membership:differs-by-endpoint', '%s: a consumer keyed by endpoint holds %r, the endpoints present are %r' % (
+          where, sorted(by_endpoint), sorted(t.values())), {'restarts': 'restart-same-endpoint' in classes},
+          {'log_tail': log[-10:]})
+        by_endpoint.clear()
+        by_endpoint.update({v: k_ for k_, v in t.items()})
 
     fast_recreate = rng.random() < 0.15 and lat_cls != 'zero'
     deleted_at = [None]
@@ -260,6 +277,18 @@ class C19(BaseCheck):
           classes.add('parent-recreated-same-names')
         for _i in range(rng.choice([0, 0, 1, 2])):
           add_member()
+      elif k < 0.995 and members:
+        # a member restarts: its node goes away and a node with a new name and the same data (same
+        # endpoint) appears, within one listing of the children or across two
+        classes.add('restart-same-endpoint')
+        old = rng.choice(members)
+        data_ = zk.nodes[path + '/' + old][0]
+        zk.delete_node(path + '/' + old)
+        if lat_cls != 'zero' and rng.random() < 0.4:
+          gevent.sleep(rng.random() * zk.latency[1] * 1.5)
+        if path in zk.nodes:
+          counter[0] += 1
+          zk.create_node(path + '/member_%010d' % counter[0], data_)
       # yield or not between mutations
       r = rng.random()
       if r < 0.3:
